@@ -33,7 +33,7 @@ type C05 struct {
 	tx  *chain.TxRecord
 }
 
-func NewC05() *C05          { return &C05{st: NewStats("C05")} }
+func NewC05() *C05           { return &C05{st: NewStats("C05")} }
 func (m *C05) Stats() *Stats { return m.st }
 
 func gcd(a, b int64) int64 {
